@@ -85,3 +85,48 @@ func Read(dir, name string) string {
 func (r Result) Panicked() bool {
 	return strings.Contains(r.Stderr, "panic:") || strings.Contains(r.Stderr, "goroutine 1 [") || strings.Contains(r.Stderr, "fatal error:")
 }
+
+// Differential runs a command and compares what it prints with what the corresponding library
+// call gives on the same input (the library call being judged against an oracle elsewhere):
+// when the library call fails the command must report an error (non-zero status or an [Error]
+// message) and print no result; otherwise the standard output must be the library's text.
+func Differential(args []string, stdin string, files map[string]string, lib func() (string, error)) error {
+	if !Available() {
+		return fmt.Errorf("harness: gotree binary not built")
+	}
+	dir := Scratch()
+	defer os.RemoveAll(dir)
+	for n, c := range files {
+		Write(dir, n, c)
+	}
+	want, lerr := lib()
+	r := Run(dir, stdin, args...)
+	ctx := fmt.Sprintf(" (gotree %s)", strings.Join(args, " "))
+	if r.TimedOut {
+		return fmt.Errorf("command did not finish%s", ctx)
+	}
+	if r.Panicked() {
+		return fmt.Errorf("command crashed%s: %s", ctx, clipS(r.Stderr))
+	}
+	reported := r.Code != 0 || strings.Contains(r.Stderr, "[Error]")
+	if lerr != nil {
+		if !reported {
+			return fmt.Errorf("the library call fails (%v) but the command reports no error and prints %q%s", lerr, clipS(r.Stdout), ctx)
+		}
+		return nil
+	}
+	if reported {
+		return fmt.Errorf("the library call succeeds but the command reports an error: status %d, %s%s", r.Code, clipS(r.Stderr), ctx)
+	}
+	if r.Stdout != want {
+		return fmt.Errorf("the command prints\n  %s\nthe library call on the same input gives\n  %s%s", clipS(r.Stdout), clipS(want), ctx)
+	}
+	return nil
+}
+
+func clipS(s string) string {
+	if len(s) > 600 {
+		return s[:600] + "..."
+	}
+	return s
+}
